@@ -187,7 +187,8 @@ def transition_steps(tr, prologue=None):
     steps = list(prologue or [])
     made = _fmap(tr.get("made"))
     created_by_last = last["op"] in ("setup_s", "setup_r", "raw_ctx") and last.get("kind") == "ok"
-    for c in sorted(made):
+    # senders first: a receiver's setup consumes the sender's encapsulated key
+    for c in sorted(made, key=lambda n: (1 if made[n] and made[n][0]["op"] == "setup_r" else 0, n)):
         if created_by_last and c == last.get("c"):
             continue
         steps.extend(made[c])
